@@ -155,6 +155,14 @@ func check(c *explore.Ctx, s []byte, limit int, r *ctlReader, setting int, site 
 
 func checkRef(c *explore.Ctx, s []byte, limit int, r *ctlReader, setting int, site string, sched fmt.Stringer, want []span, clean bool) {
 	d := s[:limit]
+	if r.term != io.EOF && len(want) > 0 {
+		// a number that runs up to the point where the reader fails may have been cut short: it is not a
+		// value of the stream (encoding/json returns the reader's error instead)
+		if last := want[len(want)-1]; last.end == len(d) && (last.raw[0] == '-' || last.raw[0] >= '0' && last.raw[0] <= '9') {
+			want = want[:len(want)-1]
+			clean = false
+		}
+	}
 	o, pv, ps := drain(r, setting)
 	desc := lazy(func() string {
 		return fmt.Sprintf("stream %q delivered %s, terminal error %v", trunc(string(d)), sched, r.term)
